@@ -73,6 +73,7 @@ class Case:
     nontrivial: bool = True
     kind: str = ""                # stream / operation kind, for the distribution report
     defs: str = ""                # optional extra definitions this case needs (emitted before it)
+    schema: str = ""              # optional schema term; the case term refers to it as @S@ (shared per file)
 
     def hkey(self) -> str:
         k = self.key if self.key is not None else self.coq
@@ -91,13 +92,21 @@ class RunResult:
 def _write_case_file(path: str, module: str, prelude: str, cases: list[Case]) -> None:
     with open(path, "w") as f:
         f.write("From Coq Require Import ZArith NArith List Bool String.\n")
-        f.write(f"From PM Require Import Corr.Common {module}.\n")
+        f.write(f"From PM Require Import Model.Data Corr.Common {module}.\n")
         f.write("Import ListNotations.\nOpen Scope Z_scope.\n")
         f.write(prelude + "\n")
+        schemas: dict[str, str] = {}
         for i, c in enumerate(cases):
+            if c.schema:
+                if c.schema not in schemas:
+                    schemas[c.schema] = f"sch_{len(schemas)}"
+                    f.write(f"Definition {schemas[c.schema]} : schema := {c.schema}.\n")
             if c.defs:
                 f.write(c.defs.replace("@I@", str(i)) + "\n")
-            f.write(f"Definition c_{i} : case := {c.coq.replace('@I@', str(i))}.\n")
+            term = c.coq.replace('@I@', str(i))
+            if c.schema:
+                term = term.replace('@S@', schemas[c.schema])
+            f.write(f"Definition c_{i} : case := {term}.\n")
         f.write("Definition cases : list case := " + lst(f"c_{i}" for i in range(len(cases))) + ".\n")
         f.write("Eval vm_compute in (failing agree cases).\n")
         f.write("Eval vm_compute in (failing holds cases).\n")
